@@ -608,9 +608,11 @@ class CompositeDataSource(DataSource):
         if not self.has_data_sources():
             raise AttributeError("CompositeDataSource has no data sources")
 
-        results = []
-        for ds in self.data_sources:
-            results.extend(ds.relationships(*args, **kwargs))
+        # (through query(), so that the filters attached to this composite
+        # apply here like everywhere else)
+        results = super(CompositeDataSource, self).relationships(
+            *args, **kwargs
+        )
 
         # remove exact duplicates (where duplicates are STIX 2.0
         # objects with the same 'id' and 'modified' values)
